@@ -74,13 +74,18 @@ def ob_decompose(cfg="A"):
     def h_sub(I_, name, args, site):
         a, b = val(words_of(args[1])), val(words_of(args[2]))
         d = L.sub(a, b)
-        if not L.prove(z3.Implies(z3.And(*I_.lin_pc) if I_.lin_pc else z3.BoolVal(True), L.z(d) >= 0), "no borrow in y - r on this path"):
-            raise Inconclusive("BigInt::subtract may borrow on this path")
         ws = [L.var("d%d_%d" % (len(L.names), i), 64) for i in range(4)]
-        L.solver.add(L.z(val(ws)) == L.z(d))
+        if L.prove(z3.Implies(z3.And(*I_.lin_pc) if I_.lin_pc else z3.BoolVal(True), L.z(d) >= 0), "no borrow in y - r on this path"):
+            L.solver.add(L.z(val(ws)) == L.z(d))
+            bw = 0
+        else:
+            # the subtraction may borrow on this path (e.g. a range test that does not imply y >= r): exact wrap-around semantics of BigInt::subtract
+            bq = L.var("borrow%d" % len(L.names), 1)
+            L.solver.add(L.z(val(ws)) == L.z(d) + (1 << 256) * L.z(bq), (L.z(bq) == 1) == (L.z(d) < 0))
+            bw = bq
         for i, w in enumerate(ws):
             I_.store_cell(args[0].obj, args[0].off + 8 * i, 8, w)
-        return 0
+        return bw
     I.add_intercept(CORE + r"BigInt<256>::compare\(.*\)", h_cmp, "BigInt<256>::compare")
     I.add_intercept(CORE + r"BigInt<256>::subtract\(.*\)", h_sub, "BigInt<256>::subtract")
 
